@@ -336,8 +336,33 @@ def oracle_membership(ctx: Ctx, case):
     same_val = _same_value(case["member"][0], case["member"][1])
     if not same_val:
         ctx.check(not np.array_equal(f1, f2), f"C14/flatten-not-injective/{d['kind']}", a=case["member"][0], b=case["member"][1])
+    # the same key -> value mapping written in another insertion order: if the space accepts it as a member, it is the same
+    # sample and must flatten to the same numbers
+    r1 = _reordered(m1)
+    reordered = r1 is not None
+    if reordered and bool(sp.contains(jax.tree.map(jnp.asarray, r1))):
+        fr = np.asarray(sp.flatten_sample(jax.tree.map(jnp.asarray, r1)))
+        ctx.check(fr.shape == f1.shape and np.array_equal(fr, f1, equal_nan=True), f"C14/flatten-depends-on-the-samples-key-order/{d['kind']}", a=case["member"][0])
     nested = depth(d) >= 2
-    ctx.count(nontrivial=True, classes=[d["kind"], f"depth={depth(d)}"] + ["nested2"] * nested, key=[d, case["near_miss"]])
+    ctx.count(nontrivial=True, classes=[d["kind"], f"depth={depth(d)}"] + ["nested2"] * nested + ["reordered_member"] * reordered, key=[d, case["near_miss"]])
+
+
+def _reordered(v):
+    """v with every mapping's insertion order reversed (None if v holds no mapping with >= 2 keys)."""
+    changed = [False]
+
+    def rec(x):
+        if isinstance(x, dict):
+            items = [(k, rec(val)) for k, val in x.items()]
+            if len(items) >= 2:
+                changed[0] = True
+            return type(x)(reversed(items))
+        if isinstance(x, tuple):
+            return tuple(rec(y) for y in x)
+        return x
+
+    out = rec(v)
+    return out if changed[0] else None
 
 
 def _same_value(a, b):
